@@ -461,7 +461,10 @@ Checks(pid, name, ok) ==
 \* with a detail field identifying the input class (used by known findings)
 ChecksD(pid, name, d, ok) == IF ok THEN {} ELSE { [ p |-> pid, inv |-> name, l |-> l, t |-> Line.t, d |-> d ] }
 
-AddCapped(S, T) == IF Cardinality(S) >= 40 THEN S ELSE S \cup T
+\* at most 6 records per invariant (a persistent failure must not crowd out
+\* the violations of other invariants)
+AddCapped(S, T) ==
+    S \cup { r \in T : Cardinality({ q \in S : q.inv = r.inv }) < 6 }
 
 -----------------------------------------------------------------------------
 
@@ -560,7 +563,7 @@ SyncOutcome(n, x, o) ==
                              (CHOOSE q \in decidedPairs : q[1] = e /\ q[2] # "U")[2] ])
         lost1 == IF lostNow THEN lostSet \cup {n} ELSE lostSet
         crossVals == lostNow \/ \A e \in DOMAIN valsNew : e \in DOMAIN evals => evals[e] = valsNew[e]
-        crossRR == lostNow \/ \A e \in DOMAIN rrNew : \A m \in (DOMAIN rrv) \ lost1 : (m # n /\ e \in DOMAIN rrv[m]) => rrv[m][e] = rrNew[e]
+        crossRR == lostNow \/ \A e \in DOMAIN rrNew : \A m \in (DOMAIN rrv) \ lost1 : (m # n /\ e \in DOMAIN rrv[m] /\ rrv[m][e] # 0) => rrv[m][e] = rrNew[e]
         crossFame == lostNow \/ \A e \in DOMAIN fameNew : e \in DOMAIN fames => fames[e] = fameNew[e]
         V == Checks("C01", "Inv_C01_Agreement", o.blocks = << >> \/ Inv_C01_Agreement(dlv1, lost1, n, from))
              \cup Checks("C02", "Inv_C02_Consecutive", o.blocks = << >> \/ Inv_C02_Consecutive(dlv1[n], from, base[n].idx))
@@ -601,7 +604,7 @@ SyncOutcome(n, x, o) ==
              \cup Checks("-", "Conf_Scalars", ConfScalars(h1, o))
              \cup Checks("-", "Conf_Anchor", ConfAnchor(h1, o))
              \cup Checks("-", "Conf_PS", ConfPS(h1, o))
-             \cup Checks("-", "Conf_SyncClass", ~r.mis)
+             \cup Checks("-", "Conf_SyncClass", ("tampered" \in DOMAIN x) \/ ~r.mis)
              \cup Checks("-", "Conf_SelfEvent", r.selfok /\ r.wantsOK)
              \cup Checks("-", "Conf_FameUnambiguous", ~h1.ambig)
     IN  [ nodes |-> nodes1, dlv |-> dlv1, sto |-> sto1, psto |-> psto1, rrv |-> [ rrv EXCEPT ![n] = rv1 ],
@@ -738,6 +741,19 @@ TraceHgInsert ==
 TraceInstance ==
     /\ Line.a = "Instance"
     /\ \E V \in { IF Line.o.err # "" THEN {}      \* unsupported configuration (an error, not a result)
+                    ELSE IF "reset" \in DOMAIN Line.x
+                    THEN \* C13 at hashgraph level: an instance reset from block k of the reference
+                         \* and fed the events above the frame delivers the reference's blocks k+1..
+                         LET bs == AsSeq(Line.o.blocks)
+                             k0 == Line.x.reset        \* block index of the anchor
+                             refAt(i) == ref.blocks[i + 1]     \* reference block with index i (indexes start at 0)
+                         IN  ChecksD("C13", "Inv_C13_SameChain", "hashgraph-reset",
+                                     \A j \in 1..Len(bs) :
+                                        /\ bs[j].idx = k0 + j
+                                        /\ bs[j].idx + 1 <= Len(ref.blocks)
+                                        /\ BlockKey(bs[j]) = BlockKey(refAt(bs[j].idx)))
+                             \cup ChecksD("C13", "Inv_C13_KeepsUp", "hashgraph-reset",
+                                     Line.o.stopped # "" \/ k0 + Len(bs) + 1 >= Len(ref.blocks) - 1)
                     ELSE IF "faulty" \in DOMAIN Line.x
                     THEN \* transient store write failures in the commit path: the blocks handed
                          \* to the application are still delivered once, in order, whole
@@ -872,7 +888,7 @@ FFOutcome(n, x, o) ==
     LET d == x.desc
         V == ChecksD("C12", "Inv_C12_AdoptOnlyValid", d, o.adopted => x.valid)
              \cup ChecksD("C12", "Inv_C12_RefusalIsNoOp", d, o.adopted \/ ~o.changed)
-             \cup ChecksD("C12", "Inv_C12_ValidAdopted", d, (d \in { "none", "none-from-lagging-server" } /\ x.valid) => o.adopted)
+
              \cup ChecksD("C14", "Inv_C14_NoStrangerAnchor", d, o.adopted => x.trusted_signer)
              \cup ChecksD("C08", "Inv_C08_NoPanic", "fast-forward:" \o d, ~o.panicked)
         nd == nodes[n]
@@ -887,15 +903,19 @@ FFOutcome(n, x, o) ==
         hd == IF nd.h.me \in Repertoire(h2) THEN LastFrom(h2, nd.h.me) ELSE NoEv
         nd1 == [ nd EXCEPT !.h = h2, !.head = hd, !.seq = IF hd = NoEv THEN -1 ELSE D[hd].i ]
         frameEvs == DOMAIN fr.info
+        \* (not a property: a node may refuse more than C12 demands; reported as drift)
+        F0 == Checks("-", "Conf_FF_ValidAdopted", (d \in { "none", "none-from-lagging-server" } /\ x.valid /\ x.trusted_signer) => o.adopted)
         F == Checks("-", "Conf_FF_Known", ConfKnown(h2, o))
              \cup Checks("-", "Conf_FF_PS", ConfPS(h2, o))
              \cup Checks("-", "Conf_FF_Scalars", ConfScalars(h2, o))
              \cup Checks("-", "Conf_FF_Head", nd1.head = o.head /\ nd1.seq = o.seq)
     IN  IF ~o.adopted
-        THEN [ adopted |-> FALSE, viol |-> AddCapped(viol, V) ]
-        ELSE [ adopted |-> TRUE, viol |-> AddCapped(viol, V), drift |-> AddCapped(drift, F),
+        THEN [ adopted |-> FALSE, viol |-> AddCapped(viol, V), drift |-> AddCapped(drift, F0) ]
+        ELSE [ adopted |-> TRUE, viol |-> AddCapped(viol, V), drift |-> AddCapped(drift, F \cup F0),
                nodes |-> [ nodes EXCEPT ![n] = nd1 ],
-               rrv |-> [ rrv EXCEPT ![n] = Strict([ e \in frameEvs |-> blk.rr ]) ],
+               \* frame events were received in the anchor round; root events at some
+               \* earlier round this node never learns: 0 stands for "at or below the anchor"
+               rrv |-> [ rrv EXCEPT ![n] = Strict([ e \in frameEvs |-> IF e \in SeqToSet(fr.evs) THEN blk.rr ELSE 0 ]) ],
                base |-> [ base EXCEPT ![n] = [ idx |-> blk.idx, rr |-> blk.rr, ps |-> PSTable(o.ps) ] ],
                last |-> [ last EXCEPT ![n] = [ lcr |-> o.lcr, ps |-> PSTable(o.ps), anchor |-> o.anchor ] ] ]
 
@@ -912,9 +932,68 @@ TraceFFOffer ==
                   \* delivery starts again after the anchor (the application was restored to it)
                   /\ cev' = [ cev EXCEPT ![Line.n] = {} ]
                   /\ ctx' = [ ctx EXCEPT ![Line.n] = << >> ]
-             ELSE UNCHANGED << nodes, rrv, base, last, drift, dlv, sto, psto, pools, cev, ctx >>
+             ELSE /\ drift' = R.drift
+                  /\ UNCHANGED << nodes, rrv, base, last, dlv, sto, psto, pools, cev, ctx >>
     /\ stats' = [ stats EXCEPT !.lines = @ + 1, !.coinVotes = @ + (IF Line.o.adopted THEN 1 ELSE 0) ]
     /\ UNCHANGED << D, meta, ref, lostSet, evals, fames, sub >>
+
+-----------------------------------------------------------------------------
+(* C08: a hostile message delivered to a node; C17: requests to a node that *)
+(* is not babbling, and the auto-suspend rule                               *)
+
+TraceRpc ==
+    /\ Line.a = "Rpc"
+    /\ LET x == Line.x
+           o == Line.o
+           d == x.class \o ":" \o x.desc
+           V == ChecksD("C08", "Inv_C08_NoPanic", d, ~o.panicked)
+                \cup ChecksD("C08", "Inv_C08_HistoryKept", d, o.panicked \/ o.history_kept)
+                \cup ChecksD("C08", "Inv_C08_StillServes", d,
+                              o.panicked \/ o.blocked \/ (o.still_pulls /\ o.still_accepts_push /\ o.sigpool_ok))
+       IN  viol' = AddCapped(viol, V)
+    /\ stats' = [ stats EXCEPT !.lines = @ + 1, !.inserts = @ + 1 ]
+    /\ UNCHANGED << D, nodes, dlv, sto, psto, rrv, meta, cev, ctx, base, last, pools, lostSet, evals, fames, ref, sub, drift >>
+
+TraceStateRpc ==
+    /\ Line.a = "StateRpc"
+    /\ LET x == Line.x
+           o == Line.o
+           d == x.state \o ":" \o x.class
+           V == ChecksD("C17", "Inv_C17_Frozen", d, o.frozen /\ ~o.panicked)
+                \cup ChecksD("C17", "Inv_C17_MutatingRefused", d, x.mutating => (o.refused \/ o.blocked))
+                \cup ChecksD("C17", "Inv_C17_SuspendedServesSync", d,
+                              (x.state = "Suspended" /\ o.is_sync) => o.served_sync_ok)
+                \cup ChecksD("C08", "Inv_C08_NoPanic", d, ~o.panicked)
+       IN  viol' = AddCapped(viol, V)
+    /\ stats' = [ stats EXCEPT !.lines = @ + 1, !.inserts = @ + 1 ]
+    /\ UNCHANGED << D, nodes, dlv, sto, psto, rrv, meta, cev, ctx, base, last, pools, lostSet, evals, fames, ref, sub, drift >>
+
+\* node.checkSuspend at a heartbeat: suspended iff the undetermined events
+\* created since the node started exceed limit x validators, or the node has
+\* reached the round of its own removal
+TraceHeartbeat ==
+    /\ Line.a = "Heartbeat"
+    /\ LET x == Line.x
+           o == Line.o
+           tooMany == x.undet - x.initial > x.limit * x.nvals
+           evicted == x.has_lcr /\ x.removedRound > 0 /\ x.removedRound > x.acceptedRound /\ x.lcr >= x.removedRound
+           V == Checks("C17", "Inv_C17_AutoSuspend",
+                       o.before = "Babbling" => ((o.after = "Suspended") <=> (tooMany \/ evicted)))
+       IN  viol' = AddCapped(viol, V)
+    /\ stats' = [ stats EXCEPT !.lines = @ + 1, !.fameDecided = @ + (IF Line.o.after = "Suspended" /\ Line.o.before = "Babbling" THEN 1 ELSE 0) ]
+    /\ UNCHANGED << D, nodes, dlv, sto, psto, rrv, meta, cev, ctx, base, last, pools, lostSet, evals, fames, ref, sub, drift >>
+
+\* C08: byte streams written to the gossip port of a real node behind the real
+\* TCP transport (one framing class per line)
+TraceBytes ==
+    /\ Line.a = "Bytes"
+    /\ LET x == Line.x
+           o == Line.o
+           V == ChecksD("C08", "Inv_C08_NoPanic", "bytes:" \o x.class, o.infra \/ ~o.crashed)
+                \cup ChecksD("C08", "Inv_C08_StillServes", "bytes:" \o x.class, o.infra \/ o.crashed \/ o.served_after = x.streams)
+       IN  viol' = AddCapped(viol, V)
+    /\ stats' = [ stats EXCEPT !.lines = @ + 1, !.inserts = @ + Line.x.streams ]
+    /\ UNCHANGED << D, nodes, dlv, sto, psto, rrv, meta, cev, ctx, base, last, pools, lostSet, evals, fames, ref, sub, drift >>
 
 \* lines that carry no specification step (the driver could not run the step)
 TraceNoop ==
@@ -928,6 +1007,7 @@ TraceStep ==
     /\ \/ TraceReset \/ TraceCreate \/ TraceSubmit \/ TraceSync \/ TraceNoop
        \/ TraceQuorum \/ TraceQuorumAccept \/ TraceMedian \/ TraceHgInsert \/ TraceInstance
        \/ TraceNodeUp \/ TraceAddItx \/ TraceOpDone \/ TraceOffer \/ TraceLiveCheck \/ TraceFFOffer
+       \/ TraceRpc \/ TraceStateRpc \/ TraceHeartbeat \/ TraceBytes
 
 TraceDone ==
     /\ l = NLines + 1
